@@ -113,7 +113,8 @@ _FUNCS = [
      'FooObj', 'load_finish', 'method', {}),
     ('foo_obj_load', T('gboolean'), [('self', T('FooObj', 1)), ('c', T('GCancellable', 1)), ('error', T('GError', 2))],
      'FooObj', 'load', 'method', {}),
-    ('foo_obj_read_begin', VOID, [('self', T('FooObj', 1)), ('n', INT)], 'FooObj', 'read_begin', 'method', {}),
+    ('foo_obj_read_begin', VOID, [('self', T('FooObj', 1)), ('cb', T('GAsyncReadyCallback')), ('user_data', T('gpointer'))],
+     'FooObj', 'read_begin', 'method', {}),
     ('foo_obj_read_end', INT, [('self', T('FooObj', 1)), ('res', T('GAsyncResult', 1)), ('error', T('GError', 2))],
      'FooObj', 'read_end', 'method', {}),
     ('foo_obj_read_now', INT, [('self', T('FooObj', 1)), ('n', INT), ('error', T('GError', 2))], 'FooObj', 'read_now', 'method', {}),
@@ -162,6 +163,7 @@ _CALLBACKS = [('FooCallback', VOID, [('v', INT), ('user_data', T('gpointer'))]),
 
 FLAG_NAMES = ('frob_invoker', 'sig_frob', 'sub_name')
 NESTED_FORMS = ('prop', 'signal', 'field', 'vfunc', 'member')
+ASYNC_FAMILY = ('foo_obj_load_async', 'foo_obj_load_finish', 'foo_obj_load', 'foo_obj_read_begin', 'foo_obj_read_end', 'foo_obj_read_now')
 _WORLDS = {}
 
 
@@ -441,29 +443,64 @@ def _near_misses(e, W):
     return [(how, x) for how, x in out if x not in W['idents'] and len(x) > 1]
 
 
-_KIND_WEIGHTS = [('prop', 5), ('signal', 4), ('field', 4), ('vfunc', 4), ('member', 2), ('const', 2), ('symbol', 7), ('type', 5)]
-_FORMS = [f for f, w in _KIND_WEIGHTS for _ in range(w)]
+_KIND_WEIGHTS = [('property', 5), ('signal', 4), ('field', 4), ('vfunc', 4), ('member', 2), ('constant', 2), ('function', 8), ('enum', 1),
+                 ('flags', 1), ('record', 2), ('boxed', 1), ('union', 1), ('callback', 1), ('class', 2), ('interface', 1), ('classstruct', 1)]
+_KINDS = [f for f, w in _KIND_WEIGHTS for _ in range(w)]
 
 
 @st.composite
 def _block(draw, W, mode):
+    first = None          # annotation drawn before the element (evens out the annotation frequencies)
     if mode == 'nested':
         form = draw(st.sampled_from(['prop', 'prop', 'signal', 'field', 'vfunc', 'vfunc', 'member']))
+        cands = [e for e in W['elems'] if e['form'] == form]
+    elif mode == 'invoker':
+        cands = [e for e in W['elems'] if e['kind'] == 'function' and e['role'] == 'method' and e['owner'] in W['classes']
+                 and (e['name'] in W['classes'][e['owner']]['slots'] or e['owner'] == 'FooObj')]
+        hit = [e for e in cands if e['name'] in W['classes'][e['owner']]['slots']]
+        if hit and draw(st.booleans()):
+            cands = hit
+        else:
+            first = 'virtual'
+    elif mode == 'any' and draw(st.integers(0, 9)) < 6:
+        first = draw(st.sampled_from(ALL_ANNS))
+        cands = [e for e in W['elems'] if applicable(first, e, W) == 'yes']
+        if first == 'rename-to' and draw(st.integers(0, 3)) > 0:
+            cands = [e for e in cands if e.get('group')]
+        if first in ASYNC_ATTRS and draw(st.booleans()):
+            cands = [e for e in cands if e['id'] in ASYNC_FAMILY]
+        if draw(st.integers(0, 4)) == 0:
+            cands = W['elems']
+        kinds = sorted(set(e['kind'] for e in cands))
+        kind = draw(st.sampled_from(kinds))
+        cands = [e for e in cands if e['kind'] == kind]
     else:
-        form = draw(st.sampled_from(_FORMS))
-    cands = [e for e in W['elems'] if e['form'] == form]
+        kind = draw(st.sampled_from(_KINDS))
+        cands = [e for e in W['elems'] if e['kind'] == kind]
     e = cands[draw(st.integers(0, len(cands) - 1))]
     near = mode == 'near' or (mode == 'any' and draw(st.integers(0, 4)) == 0)
     ident, origin = e['id'], 'real'
     if near:
         nm = _near_misses(e, W)
-        how, ident = nm[draw(st.integers(0, len(nm) - 1))]
+        hows = sorted(set(h for h, x in nm))
+        how = draw(st.sampled_from(hows))
+        nm = [x for h, x in nm if h == how]
+        ident = nm[draw(st.integers(0, len(nm) - 1))]
         origin = 'near:' + how
     n = draw(st.sampled_from([0, 1, 1, 1, 2, 2, 3]))
     anns = []
     seen = set()
+    if first is not None:
+        anns.append([first, draw(_ann_value(first, e, W))])
+        seen.add(first)
+        n = max(0, n - 1)
     for _ in range(n):
-        pool = _anns_for(e, W) if draw(st.integers(0, 9)) < 7 else ALL_ANNS
+        r = draw(st.integers(0, 9))
+        pool = ALL_ANNS
+        if r < 5:
+            pool = [a for a in _anns_for(e, W) if a not in GENERIC] or list(GENERIC)
+        elif r < 7:
+            pool = list(GENERIC)
         a = draw(st.sampled_from(pool))
         if a in seen:
             continue
@@ -493,6 +530,8 @@ def cases(draw):
     W = world(flags)
     n = draw(st.integers(2, 7))
     modes = ['nested', 'near'] + ['any'] * (n - 2)
+    if draw(st.integers(0, 3)) == 0:
+        modes.append('invoker')
     blocks = []
     used = set()
     for m in modes:
@@ -805,6 +844,13 @@ def check_case(case, ctx):
         raise Discard()
     elems = [W['idents'].get(b['ident']) for b in blocks]
 
+    for b in blocks:
+        for a, v in b['anns']:
+            ctx.label('ann:' + a)
+        for t in ('since', 'deprecated', 'stability'):
+            if b.get(t):
+                ctx.label('tag:' + t)
+
     # ---- known findings excluded by construction (exactly the shape; the rest of the case is still checked)
     for b, e in zip(blocks, elems):
         if e is None:
@@ -838,11 +884,6 @@ def check_case(case, ctx):
             ctx.label('block:real', 'form:' + e['form'], 'kind:' + e['kind'])
             if e['form'] in NESTED_FORMS:
                 nested = True
-        for a, v in b['anns']:
-            ctx.label('ann:' + a)
-        for t in ('since', 'deprecated', 'stability'):
-            if b.get(t):
-                ctx.label('tag:' + t)
     by_ident = dict((b['ident'], b) for b in blocks)
 
     def vfunc_has_own_block(cls, slot):
@@ -1163,7 +1204,7 @@ def known_shape(case, v):
 
 
 def plan(tier):
-    n = 19 if tier == 'quick' else 2500
+    n = 24 if tier == 'quick' else 2500
     if os.environ.get('VERIF_C03_N'):          # development aid: cases per shard
         n = int(os.environ['VERIF_C03_N'])
     return [{'n': n, 'part': i} for i in range(16)]
@@ -1180,16 +1221,18 @@ def health(agg, tier):
     scale = ev / 300.0
     if ev < 150:
         return probs        # development runs with a few shards: frequencies are noise
-    for f, mn in (('form:symbol', 60), ('form:type', 40), ('form:prop', 60), ('form:signal', 40), ('form:field', 40),
-                  ('form:vfunc', 40), ('form:member', 15), ('form:const', 10), ('block:near-miss', 250), ('near-miss-inert', 250),
-                  ('inherit-from-invoker', 5), ('tag:since', 150), ('tag:deprecated', 150), ('tag:stability', 100), ('local', 600)):
+    for f, mn in (('form:symbol', 40), ('form:type', 30), ('form:prop', 30), ('form:signal', 15), ('form:field', 25),
+                  ('form:vfunc', 20), ('form:member', 8), ('form:const', 4), ('block:near-miss', 200), ('near-miss-inert', 200),
+                  ('inherit-from-invoker', 15), ('tag:since', 150), ('tag:deprecated', 150), ('tag:stability', 100), ('local', 500),
+                  ('direct:doc', 100), ('direct:since', 100), ('direct:deprecated-version', 80), ('direct:stability', 60),
+                  ('direct:skip', 30), ('direct:attributes', 30)):
         if lab.get(f, 0) < mn * scale:
             probs.append('%s only %d times in %d cases' % (f, lab.get(f, 0), ev))
     for a in ALL_ANNS:
-        if lab.get('ann:' + a, 0) < 12 * scale:
+        if lab.get('ann:' + a, 0) < 4 * scale:
             probs.append('annotation %s drawn only %d times in %d cases' % (a, lab.get('ann:' + a, 0), ev))
     for how in ('form:as-property', 'form:as-signal', 'form:as-field', 'other-owner', 'prefix', 'suffix', 'case', 'gi-name'):
-        if lab.get('near:' + how, 0) < 8 * scale:
+        if lab.get('near:' + how, 0) < 4 * scale:
             probs.append('near-miss kind %s only %d times' % (how, lab.get('near:' + how, 0)))
     if agg['discards'] > 0.05 * ev:
         probs.append('discard rate %d/%d' % (agg['discards'], ev))
